@@ -7,9 +7,11 @@ import tfimpl
 
 ID = "C01"
 HMODULE = "H_C01"
-RULE = ("random valid Lattice configurations (rank 1-4, sizes 2-4, <= 72 vertices, units 1-3, monotone subsets, "
+RULE = ("random valid Lattice configurations (rank 1-4, sizes 2-5, <= 72 vertices, units 1-3, monotone subsets, "
         "Edgeworth / trapezoid trusts of both directions - matching or not, monotone or free conditional "
-        "feature -, one/two-sided bounds, plus unimodality / dominance / joint families alongside, "
+        "feature -, one/two-sided bounds, plus unimodality / dominance / joint families alongside (pairs occasionally "
+        "duplicated), ~5% configurations WITHOUT a monotone dimension but with unimodalities / joint monotonicities / "
+        "joint unimodalities (strict path = Dykstra result, clipped), "
         "num_projection_iterations 0-4) x kernel classes (random, far +-64, ties, sorted, anti-sorted, "
         "constant, noisy-feasible; unit columns of different magnitude). Each desc runs "
         "lattice_lib.finalize_constraints(w) and strict LatticeConstraints(w) (with the real Dykstra stage's "
@@ -68,7 +70,8 @@ def gen_descs(ctx):
   rng = ctx.rng
   out = []
   for _ in range(ctx.n(400, 5000)):
-    cfg = latgen.gen_cfg(rng)
+    # ~5%: no monotone dimension but unimodalities / joint constraints (Dykstra block entered, finalize is the identity)
+    cfg = latgen.gen_cfg_nomono(rng) if rng.random() < 0.05 else latgen.gen_cfg(rng)
     klass = rng.choice(latgen.KERNEL_CLASSES)
     out.append(dict(cfg=cfg, kclass=klass, w=latgen.gen_kernel(rng, cfg, klass), iters=rng.choice([0, 1, 1, 2, 4])))
   return out
@@ -128,7 +131,9 @@ def eval_cases(ctx, descs):
     coq = ["CFin %s %s %s" % (coq_cfg(cfg), cql(flat(W)), cql(flat(fin))),
            "CCon %s %s %s %s" % (coq_cfg(cfg), cbool(ran), cql(flat(wd)), cql(flat(out)))]
     moved = np.abs(out - W).max() > 1e-12
-    klass = "r%d_u%d_%s%s%s%s_%s" % (len(cfg["sizes"]), cfg["units"], "E" if cfg["edge"] else "", "T" if cfg["trap"] else "",
+    nomono_ran = ran and not any(cfg["monos"])
+    klass = "r%d_u%d_%s%s%s%s%s_%s" % (len(cfg["sizes"]), cfg["units"], "nomonoDykstra" if nomono_ran else "",
+                                      "E" if cfg["edge"] else "", "T" if cfg["trap"] else "",
                                       "B" if cfg["omin"] is not None or cfg["omax"] is not None else "",
                                       "O" if (any(cfg["uni"]) or cfg["mdom"] or cfg["rdom"] or cfg["jmono"] or cfg["juni"]) else "",
                                       d["kclass"])
